@@ -112,8 +112,7 @@ theorem alpm_swo_noRel :
   swo_of_ltgt (cmp := cmpOn (Subtype.val : Alpm.NoRel → Alpm.Raw) Alpm.vercmp) Alpm.verOps_lawful.ltgt.sub
 
 /-- ebuild and alpine: every value the constructors can produce -/
-theorem gentoo_ltgt : LawfulLtGt Gentoo.verOps Gentoo.vercmp :=
-  ⟨Gentoo.verOps_lawful_partial.2.2.1, Gentoo.verOps_lawful_partial.2.2.2⟩
+theorem gentoo_ltgt : LawfulLtGt Gentoo.verOps Gentoo.vercmp := Gentoo.verOps_lawful.ltgt
 theorem gentoo_swo :
     StrictWeakOrder (subOps (P := Gentoo.Valid) Gentoo.verOps).lt (subOps (P := Gentoo.Valid) Gentoo.verOps).gt :=
   swo_of_ltgt (cmp := cmpOn (Subtype.val : Gentoo.ValidRaw → Gentoo.Raw) Gentoo.vercmp) gentoo_ltgt.sub
